@@ -36,9 +36,13 @@ claim('C10',
       'IsProblemUnbounded, IsProblemIndiffInfOrUnb, IsProblemInfOrUnb, IsSolStatusRetrieved) with postconditions equal to '
       'the documented ranges of the statement, for EVERY int code (not only -200..999); a lemma tying the enum sol::Status '
       'constants to the documented numbers; and the objective block of ReportSolution2AMPL proved to write the objective '
-      'exactly when the code is a solution candidate and an objective value exists.',
-      'Trusted: CBMC, extractor, SolveCode() as one ghost int (no override in the tree), writer/format calls as stubs. '
-      'Not decided: that the .sol file carries SolveCode() unchanged (C++ formatting path), the -! table.',
+      'exactly when the code is a solution candidate and an objective value exists. Pass-through of the code, hop by hop: the '
+      'HandleSolution call of ReportSolution2AMPL carries SolveCode() and the selected objective value; both SolutionAdapter '
+      'constructions of SolutionWriterImpl carry the status received, one value per variable / algebraic constraint (or none) '
+      'and objno_used(); the SolutionAdapter constructor and accessors return what was stored; C05.WriteSolFile proves the '
+      '"objno <n> <code>" line carries sol.status().',
+      'Trusted: CBMC, extractor, SolveCode() as one ghost int (no override in the tree), writer/format calls as stubs, C++ '
+      'virtual dispatch between the hops. Not decided: the -! table, AppSolutionHandlerImpl wantsol branches.',
       'DESIGN.md 4 C10')
 claim('C12',
       'Contracts on the real BasicSolver option accessors (SetObjNo, GetObjNo, objno_specified, is_objno_specified, '
